@@ -18,8 +18,14 @@ pub fn run(o: &Opts) {
 
 /// `vary_root`: the root script is dispatched through wasm_sudo or migrate instead of execute
 pub fn run_from(o: &Opts, vary_root: bool) {
+    run_with(o, vary_root, false)
+}
+
+/// `adapted`: the contracts are registered through the wrapper's Empty adapters (seed C20h: what a
+/// Reply carries must not depend on how the wrapper was assembled)
+pub fn run_with(o: &Opts, vary_root: bool, adapted: bool) {
     let root_entry = if vary_root { 1 + choose(3) } else { 0 };
-    let mut w = world(o.max_depth + 1);
+    let mut w = world_of(o.max_depth + 1, adapted);
     let root = gen_tree(o);
     let mut uids = BTreeMap::new();
     let mut next = 0;
@@ -122,6 +128,9 @@ pub fn scenarios(tier: &str) -> Vec<Scenario> {
     // three contracts deep (seed C03e: what a Reply carries depends on what happened two levels below)
     v.push(Scenario::new("chains_of_three_contracts_output_varied", &must, || {
         run(&Opts { max_depth: 3, max_nodes: 3, max_children: 1, vary_output: true, vary_ids: false, reply_subs: false, inst_leaves: false })
+    }));
+    v.push(Scenario::new("trees_depth2_nodes2_contracts_registered_through_empty_adapters", &must, || {
+        run_with(&Opts { max_depth: 2, max_nodes: 2, max_children: 1, vary_output: true, vary_ids: true, reply_subs: false, inst_leaves: false }, false, true)
     }));
     v.push(Scenario::new("reply_after_a_rolled_back_self_migration", &must, reply_after_rolled_back_self_migration));
     v.push(Scenario::new("trees_depth2_nodes2_root_dispatched_by_sudo_or_migrate", &must, || {
